@@ -122,6 +122,10 @@ def mask(bits):
     return (1 << bits) - 1
 
 
+_NEG_PRED = {"eq": "ne", "ne": "eq", "ult": "uge", "uge": "ult", "ugt": "ule", "ule": "ugt",
+             "slt": "sge", "sge": "slt", "sgt": "sle", "sle": "sgt"}
+
+
 def fold_bin(op, bits, a, b):
     if a[0] == "c" and b[0] == "c":
         x, y, m = a[2], b[2], mask(bits)
@@ -371,6 +375,11 @@ class Path:
             bits = int_bits(i.ty)
             a, b = self.ev(i.ops[0]), self.ev(i.ops[1])
             f = fold_bin(op, bits, a, b) if bits else None
+            if f is None and op == "xor" and bits == 1:
+                # !cmp on an i1: the opposite comparison
+                for x, y in ((a, b), (b, a)):
+                    if x[0] == "icmp" and y[0] == "c" and y[2] == 1:
+                        f = ("icmp", _NEG_PRED[x[1]], x[2], x[3])
             self.env[i.name] = f if f is not None else ("b", op, bits, a, b)
             if op in ("udiv", "sdiv", "urem", "srem") and b[0] != "c":
                 self.events.append(Event("div", i, val=b, extra=op))
